@@ -1,44 +1,52 @@
 """C08 -- NUTS leaves its target invariant.
 
-Correspondence: one scripted transition of cuqi.experimental.mcmc.NUTS.step and of cuqi.sampler.NUTS._sample
-(momentum, Exp(1) draw and every uniform scripted by patching numpy.random) against Model/C08_NUTS.v:
-every leaf (point, momentum, log-density), the number of random numbers consumed, the leaves of the last
-doubling, the selected state, its cached log-density/gradient and the accept flag.
+Correspondence: scripted transitions of cuqi.experimental.mcmc.NUTS (sample(1) = one step) and of
+cuqi.sampler.NUTS._sample (momentum, Exp(1) draw and every uniform scripted by patching numpy.random) against
+Model/C08_NUTS.v: every leaf (point, momentum, log-density) in build order, the number of uniforms consumed, the
+leaves of the last doubling (= n_alpha), the selected state, its cached log-density / gradient and the accept flag;
+chains of two transitions (so that a stale cache shows), fresh and after warm-up; the step-size schedule.
 
-Independent oracle (search stage and a sample of every run): exact enumeration of the REAL sampler's
-transition kernel restricted to one leapfrog orbit, by handing it symbolic uniforms that record the
-threshold they are compared with; detailed balance P(0->k) = P(k->0) w.r.t. the counting measure on the
-in-slice orbit points is then checked in exact Fractions."""
+Independent oracle: (1) per transition, on the observed data: order of random draws, acceptance statistic = mean
+Metropolis probability over the leaves of the last doubling, the new state is the old one or a leaf inside the slice
+with finite log-density, caches recomputed from the target; (2) exact enumeration of the REAL sampler's transition
+kernel restricted to one leapfrog orbit, by handing it symbolic uniforms that record the threshold they are compared
+with: the counting measure on the in-slice orbit points must be stationary, sum_i P(i -> 0) = 1."""
 import math, itertools
 from fractions import Fraction
 import numpy as np
 from common import *
 
 IMPORTS = "From CV Require Import Base.Cmp Base.Ext Base.QcLin Model.C08_NUTS.\nFrom Coq Require Import QArith Qcanon."
-RULE = ("scripted single transitions: target family x dim x step size (1/8..4) x max_depth x start x momentum x slice draw x uniforms, "
-        "both implementations, fresh and after warm-up; distinct = distinct (implementation, target, inputs, script); "
-        "trivial = transitions whose first leaf already stops the trajectory (a single leaf)")
+RULE = ("scripted transitions: implementation x target family (gauss, two-piece normal, quartic, box with -inf/nan/+inf outside) x "
+        "max_depth x step-size class (tiny/mid/huge) x phase (fresh, second transition, after warm-up); dims 1-3, dyadic start/momentum; "
+        "distinct = distinct (implementation, target, inputs, script); trivial = transitions whose first leaf already stops the "
+        "trajectory (a single leaf)")
+
+SIG_PINF = "NUTS.legacy|nonfinite:+inf-selected"
 
 
 # ---------------- targets (python side; exact-friendly arithmetic) ----------------
-def mk_target(cuqi, spec):
+def target_funcs(spec):
     kind = spec["kind"]
     if kind == "gauss":
         p = np.array(spec["prec"], dtype=float)
-        return cuqi.distribution.UserDefinedDistribution(dim=len(p), logpdf_func=lambda x: -0.5 * np.sum(p * (x * x)),
-                                                         gradient_func=lambda x: -(p * x))
+        return (lambda x: -0.5 * np.sum(p * (x * x))), (lambda x: -(p * x))
+    if kind == "split":
+        pl, pr = np.array(spec["pl"], dtype=float), np.array(spec["pr"], dtype=float)
+        return (lambda x: -0.5 * np.sum(np.where(x < 0, pl, pr) * (x * x))), (lambda x: -(np.where(x < 0, pl, pr) * x))
     if kind == "quartic":
-        d = spec["dim"]
-        return cuqi.distribution.UserDefinedDistribution(dim=d, logpdf_func=lambda x: -0.25 * np.sum((x * x) * (x * x)),
-                                                         gradient_func=lambda x: -(x * (x * x)))
+        return (lambda x: -0.25 * np.sum((x * x) * (x * x))), (lambda x: -(x * (x * x)))
     if kind == "box":
         p = np.array(spec["prec"], dtype=float)
         B = spec["bound"]
-        bad = {"ninf": -np.inf, "nan": np.nan}[spec["bad"]]
-        return cuqi.distribution.UserDefinedDistribution(
-            dim=len(p), logpdf_func=lambda x: (-0.5 * np.sum(p * (x * x))) if np.max(np.abs(x)) <= B else bad,
-            gradient_func=lambda x: -(p * x))
+        bad = {"ninf": -np.inf, "nan": np.nan, "pinf": np.inf}[spec["bad"]]
+        return (lambda x: (-0.5 * np.sum(p * (x * x))) if np.max(np.abs(x)) <= B else bad), (lambda x: -(p * x))
     raise ValueError(kind)
+
+
+def mk_target(cuqi, spec):
+    f, g = target_funcs(spec)
+    return cuqi.distribution.UserDefinedDistribution(dim=dim_of(spec), logpdf_func=f, gradient_func=g)
 
 
 def cqc(x):
@@ -46,32 +54,43 @@ def cqc(x):
 
 
 def ctarget(spec):
-    if spec["kind"] == "gauss":
+    k = spec["kind"]
+    if k == "gauss":
         return "(TGauss %s)" % clist([cqc(v) for v in spec["prec"]])
-    if spec["kind"] == "quartic":
+    if k == "split":
+        return "(TSplit %s %s)" % (clist([cqc(v) for v in spec["pl"]]), clist([cqc(v) for v in spec["pr"]]))
+    if k == "quartic":
         return "TQuartic"
-    return "(TBox %s %s %s)" % (clist([cqc(v) for v in spec["prec"]]), cqc(spec["bound"]), {"ninf": "NInf", "nan": "NaN"}[spec["bad"]])
+    return "(TBox %s %s %s)" % (clist([cqc(v) for v in spec["prec"]]), cqc(spec["bound"]),
+                                {"ninf": "NInf", "nan": "NaN", "pinf": "PInf"}[spec["bad"]])
 
 
 def dim_of(spec):
-    return spec["dim"] if spec["kind"] == "quartic" else len(spec["prec"])
+    return {"quartic": lambda: spec["dim"], "split": lambda: len(spec["pl"])}.get(spec["kind"], lambda: len(spec["prec"]))()
 
 
-# ---------------- driving one transition of the real samplers ----------------
+def kind_name(spec):
+    return spec["kind"] + (":" + spec["bad"] if spec["kind"] == "box" else "")
+
+
+# ---------------- driving scripted transitions of the real samplers ----------------
 class Recorder:
+    """records every _Leapfrog result made inside _BuildTree, per transition"""
     def __init__(self, sampler):
-        self.leaves, self.depth, self.top_calls = [], 0, []
+        self.trans = []               # per transition: dict(leaves=[], top=[])
+        self.depth, self.active = 0, False
         lf, bt = sampler._Leapfrog, sampler._BuildTree
         rec = self
 
         def leap(a, b, c, eps):
             out = lf(a, b, c, eps)
-            rec.leaves.append((np.array(out[0], dtype=float).copy(), np.array(out[1], dtype=float).copy(), float(out[2])))
+            if rec.depth > 0 and rec.active:
+                rec.trans[-1]["leaves"].append((np.array(out[0], dtype=float).copy(), np.array(out[1], dtype=float).copy(), float(out[2])))
             return out
 
         def build(*a, **k):
-            if rec.depth == 0:
-                rec.top_calls.append(len(rec.leaves))
+            if rec.depth == 0 and rec.active:
+                rec.trans[-1]["top"].append(len(rec.trans[-1]["leaves"]))
             rec.depth += 1
             try:
                 return bt(*a, **k)
@@ -80,61 +99,231 @@ class Recorder:
         sampler._Leapfrog = leap
         sampler._BuildTree = build
 
-    def last_count(self):
-        return len(self.leaves) - self.top_calls[-1] if self.top_calls else 0
+    def start(self):
+        self.trans.append({"leaves": [], "top": []})
+        self.active = True
 
 
-def script_of(z, e, us):
-    it = iter(us)
+class Script:
+    """numpy.random script: per transition (z, e, us); transitions before `first` are served by the seeded default stream"""
+    def __init__(self, scripts, first=0):
+        self.scripts, self.first = scripts, first
+        self.k = -1                   # index of the current transition
+        self.in_fge = False
+        self.on_start = None
+        self.orders = []              # per transition: kinds drawn
+        self.it = None
 
-    def script(kind, a, k, idx):
+    def cur(self):
+        j = self.k - self.first
+        return self.scripts[j] if 0 <= j < len(self.scripts) else None
+
+    def __call__(self, kind, a, k, idx):
+        if self.in_fge:
+            return None
         if kind == "standard_normal":
-            return np.array(z, dtype=float)
+            self.k += 1
+            self.orders.append([])
+            c = self.cur()
+            if self.on_start:
+                self.on_start(c is not None)
+            if c is not None:
+                self.it = iter(c[2])
+        c = self.cur()
+        if self.k >= 0:
+            self.orders[-1].append(kind)
+        if c is None:
+            return None
+        if kind == "standard_normal":
+            return np.array(c[0], dtype=float)
         if kind == "exponential":
-            return np.array([e], dtype=float)
+            return np.array([c[1]], dtype=float)
         if kind == "rand":
-            return next(it)
+            return next(self.it)
         raise RuntimeError("unexpected random call " + kind)
-    return script
 
 
-def one_transition(cuqi, impl, spec, eps, max_depth, x0, z, e, us, warm=0):
-    """returns dict(observations) for one scripted transition"""
+class OutOfUniforms(Exception):
+    pass
+
+
+def run_chain(cuqi, impl, spec, eps, md, x0, scripts, warm=0, warm_seed=1):
+    """list of per-transition observations for len(scripts) scripted transitions (after `warm` unscripted warm-up ones)"""
     T = mk_target(cuqi, spec)
     x0 = np.array(x0, dtype=float)
+    obs = []
     if impl == "exp":
         from cuqi.experimental.mcmc import NUTS
-        s = NUTS(T, initial_point=x0, max_depth=max_depth, step_size=eps)
+        s = NUTS(T, initial_point=x0, max_depth=md, step_size=eps)
+        sched = None
         if warm:
-            with ScriptedRandom(seed=warm):
+            events, used = [], []
+            orig_tune, orig_step = s.tune, s.step
+
+            def tune(skip_len, update_count):
+                r = orig_tune(skip_len, update_count)
+                events.append(("tune", float(s._epsilon), float(s._epsilon_bar)))
+                return r
+
+            def step():
+                events.append(("step",))
+                return orig_step()
+            s.tune, s.step = tune, step
+            with ScriptedRandom(seed=warm_seed):
                 s.warmup(warm)
-            s._pre_sample()
-            x0 = np.array(s.current_point, dtype=float)
-            eps = float(s._epsilon)
-        else:
-            s._ensure_initialized()
-            s._pre_sample()
+            sched = {"eps0": float(eps), "events": events}
         rec = Recorder(s)
-        with ScriptedRandom(script=script_of(z, e, us)) as sr:
-            acc = s.step()
-        nrand = sum(1 for l in sr.log if l[0] == "rand")
-        order = [l[0] for l in sr.log]
-        return dict(x0=x0, eps=eps, leaves=rec.leaves, point=np.array(s.current_point, dtype=float), logd=float(s.current_target_logd),
-                    grad=np.array(s.current_target_grad, dtype=float), acc=bool(acc), nrand=nrand, nlast=rec.last_count(),
-                    alpha=float(s._current_alpha_ratio), order=order)
+        for (z, e, us) in scripts:
+            sc = Script([(z, e, us)])
+            sc.on_start = lambda scripted: rec.start()
+            xb = np.array(s.current_point, dtype=float).copy() if s._is_initialized else x0.copy()
+            n_before = len(s.epsilon_list) if s._is_initialized else 0
+            try:
+                with ScriptedRandom(script=sc) as sr:
+                    s.sample(1)
+            except StopIteration:
+                raise OutOfUniforms()
+            tr = rec.trans[-1]
+            obs.append(dict(x0=xb, eps=float(s.epsilon_list[n_before]), leaves=tr["leaves"], point=np.array(s.current_point, dtype=float).copy(),
+                            logd=float(s.current_target_logd), grad=np.array(s.current_target_grad, dtype=float).copy(),
+                            acc=bool(s._acc[-1]), nrand=sum(1 for l in sr.log if l[0] == "rand"),
+                            nlast=len(tr["leaves"]) - tr["top"][-1] if tr["top"] else 0, alpha=float(s._current_alpha_ratio),
+                            order=sc.orders[-1] if sc.orders else [], ntree=int(s.num_tree_node_list[-1])))
+        if sched is not None:
+            sched["events"] = [("prewarm",)] + sched["events"][:]
+            # events recorded so far contain the warm-up steps/tunes and the sampling steps
+            k = sum(1 for ev in sched["events"] if ev[0] == "step") - len(scripts)
+            evs, c = [], 0
+            for ev in sched["events"]:
+                if ev[0] == "step":
+                    if c == k:
+                        evs.append(("presample",))
+                    c += 1
+                evs.append(ev)
+            sched["events"] = evs
+            sched["used"] = [float(v) for v in s.epsilon_list]
+            sched["final"] = (float(s._epsilon), float(s._epsilon_bar))
+            obs[0]["sched"] = sched
+        return obs
     else:
-        s = cuqi.sampler.NUTS(T, x0=x0, max_depth=max_depth, adapt_step_size=eps)
+        s = cuqi.sampler.NUTS(T, x0=x0, max_depth=md, adapt_step_size=(True if warm else eps))
+        s._return_burnin = True
         rec = Recorder(s)
-        with ScriptedRandom(script=script_of(z, e, us)) as sr:
-            theta, joint, steps = s._sample(2, 0)
-        nrand = sum(1 for l in sr.log if l[0] == "rand")
-        return dict(x0=x0, eps=eps, leaves=rec.leaves, point=np.array(theta[:, 1], dtype=float), logd=float(joint[1]), grad=None, acc=None,
-                    nrand=nrand, nlast=rec.last_count(), alpha=None, order=[l[0] for l in sr.log],
-                    first=np.array(theta[:, 0], dtype=float))
+        sc = Script(scripts, first=warm)
+        sc.on_start = lambda scripted: rec.start()
+        fge = s._FindGoodEpsilon
+
+        def fge_wrapped(*a, **k):
+            sc.in_fge, act = True, rec.active
+            rec.active = False
+            try:
+                return fge(*a, **k)
+            finally:
+                sc.in_fge, rec.active = False, act
+        s._FindGoodEpsilon = fge_wrapped
+        N = len(scripts) + 1
+        import io, contextlib
+        try:
+            with ScriptedRandom(seed=warm_seed, script=sc) as sr, contextlib.redirect_stdout(io.StringIO()):
+                theta, joint, steps = s._sample(N, warm)
+        except StopIteration:
+            raise OutOfUniforms()
+        for j in range(len(scripts)):
+            k = warm + 1 + j
+            tr = rec.trans[k - 1]
+            order = sc.orders[k - 1]
+            obs.append(dict(x0=np.array(theta[:, k - 1], dtype=float), eps=float(s.epsilon_list[k - 1]), leaves=tr["leaves"],
+                            point=np.array(theta[:, k], dtype=float), logd=float(joint[k]), grad=None, acc=None,
+                            nrand=sum(1 for o in order if o == "rand"), nlast=len(tr["leaves"]) - tr["top"][-1] if tr["top"] else 0,
+                            alpha=None, order=order, ntree=int(s.num_tree_node_list[k - 1]),
+                            first=np.array(theta[:, 0], dtype=float), chain_x0=[float(v) for v in x0]))
+        return obs
 
 
-def ham(leaf):
-    return leaf[2] - 0.5 * float(np.dot(leaf[1], leaf[1]))
+# ---------------- per-transition oracle on the observed data ----------------
+def exact_leaves(spec, eps, x0, z, leaves):
+    """True iff the implementation's leaves equal, bit for bit, the leapfrog orbit recomputed in exact rationals
+    (then ties in the decisions are meaningful).  Only for polynomial targets without a box."""
+    if spec["kind"] not in ("gauss", "quartic"):
+        return False
+    x0 = [frac(v) for v in x0]
+    h = frac(eps)
+    if spec["kind"] == "gauss":
+        p = [frac(v) for v in spec["prec"]]
+        grad = lambda x: [-pi * xi for pi, xi in zip(p, x)]
+        logd = lambda x: -sum(pi * xi * xi for pi, xi in zip(p, x)) / 2
+    else:
+        grad = lambda x: [-(xi ** 3) for xi in x]
+        logd = lambda x: -sum(xi ** 4 for xi in x) / 4
+    st = {0: (x0, [frac(v) for v in z])}
+
+    def step(s, sign):
+        x, r = s
+        e = sign * h
+        r1 = [ri + e / 2 * gi for ri, gi in zip(r, grad(x))]
+        x1 = [xi + e * ri for xi, ri in zip(x, r1)]
+        r2 = [ri + e / 2 * gi for ri, gi in zip(r1, grad(x1))]
+        return (x1, r2)
+    n = len(leaves)
+    for i in range(1, n + 1):
+        st[i] = step(st[i - 1], 1)
+        st[-i] = step(st[-i + 1], -1)
+    pts = {}
+    for i, (x, r) in st.items():
+        pts[tuple(x)] = (i, r)
+    small = lambda v: frac(v).numerator.bit_length() <= 22 and frac(v).denominator.bit_length() <= 22
+    for (x, r, l) in leaves:
+        if not (all(small(v) for v in x) and all(small(v) for v in r)):
+            return False
+        key = tuple(frac(v) for v in x)
+        if key not in pts:
+            return False
+        i, rr = pts[key]
+        if [frac(v) for v in r] != rr or frac(l) != logd(list(key)):
+            return False
+    return True
+
+
+def transition_oracle(impl, spec, o, z, e):
+    """independent re-statement of the per-transition clauses of the property on the observed data"""
+    f, g = target_funcs(spec)
+    x0 = np.array(o["x0"], dtype=float)
+    if o["order"][:2] != ["standard_normal", "exponential"] or any(k != "rand" for k in o["order"][2:]):
+        return "random numbers are drawn in an unexpected order: %s" % o["order"][:6], "NUTS.rng_order"
+    L0 = float(f(x0))
+    H0 = L0 - 0.5 * float(np.dot(z, z))
+    logu = H0 - e
+    hs = [l[2] - 0.5 * float(np.dot(l[1], l[1])) for l in o["leaves"]]
+    # the new state: old one or a leaf in the slice, with finite log-density
+    pt = np.array(o["point"], dtype=float)
+    if not np.isfinite(o["logd"]):
+        return ("a state with non-finite log-density %r was selected" % o["logd"],
+                SIG_PINF if (impl == "leg" and o["logd"] == np.inf) else "NUTS.%s.nonfinite_selected" % impl)
+    if not np.array_equal(pt, x0):
+        idx = [i for i, l in enumerate(o["leaves"]) if np.array_equal(l[0], pt)]
+        if not idx:
+            return "the new state %s is neither the old state nor a visited leaf" % pt, "NUTS.%s.selected_not_a_leaf" % impl
+        if np.isfinite(logu) and all(hs[i] < logu - 1e-9 * (1 + abs(logu)) for i in idx):
+            return "the new state (leaf %d, H=%r) lies outside the slice log u=%r" % (idx[0], hs[idx[0]], logu), "NUTS.%s.selected_outside_slice" % impl
+    # caches belong to the current point
+    Lp = float(f(pt))
+    if not (Lp == o["logd"] or abs(Lp - o["logd"]) <= 1e-12 * (1 + abs(Lp))):
+        return "cached log-density %r is not the log-density %r of the current point" % (o["logd"], Lp), "NUTS.%s.cache_logd" % impl
+    if o["grad"] is not None and not np.allclose(o["grad"], g(pt), rtol=1e-12, atol=1e-12):
+        return "cached gradient %s is not the gradient %s of the current point" % (o["grad"], g(pt)), "NUTS.%s.cache_grad" % impl
+    if impl == "exp" and o["acc"] != (not np.array_equal(pt, x0)) and len(set(tuple(l[0]) for l in o["leaves"]) | {tuple(x0)}) == len(o["leaves"]) + 1:
+        return "accept flag %r although the state %s" % (o["acc"], "changed" if not np.array_equal(pt, x0) else "did not change"), "NUTS.exp.acc_flag"
+    if impl == "leg" and o.get("chain_x0") is not None and not np.array_equal(o["first"], np.array(o["chain_x0"], dtype=float)):
+        return "the first stored state %s is not the initial point %s" % (o["first"], o["chain_x0"]), "NUTS.legacy.first_state"
+    # the statistic: mean Metropolis probability over the leaves of the last doubling
+    if impl == "exp" and o["nlast"] > 0 and np.isfinite(H0):
+        hl = hs[-o["nlast"]:]
+        if all(not np.isnan(h) for h in hl):
+            exp_alpha = sum((1.0 if h > H0 else math.exp(h - H0)) for h in hl) / len(hl)
+            if not abs(exp_alpha - o["alpha"]) <= 1e-12 * (1 + abs(exp_alpha)):
+                return ("acceptance statistic %r is not the mean Metropolis probability %r over the %d leaves of the last doubling"
+                        % (o["alpha"], exp_alpha, len(hl))), "NUTS.exp.alpha_stat"
+    return None, ""
 
 
 # ---------------- exact kernel enumeration of the real sampler on one orbit ----------------
@@ -143,20 +332,18 @@ class SymU:
     def __init__(self, ctl):
         self.ctl = ctl
 
-    def _decide(self, p):
+    def __le__(self, p):
         return self.ctl.decide(float(p))
 
-    def __le__(self, p):
-        return self._decide(p)
-
     def __lt__(self, p):
-        return self._decide(p)
+        return self.ctl.decide(float(p))
 
 
 class Enumerator:
     """depth-first enumeration of every outcome of a randomised run with exact weights"""
     def __init__(self):
         self.prefix, self.pos, self.weight, self.pending = [], 0, Fraction(1), []
+        self.runs = 0
 
     def decide(self, p):
         p = min(1.0, max(0.0, p))
@@ -164,9 +351,9 @@ class Enumerator:
         if self.pos < len(self.prefix):
             b = self.prefix[self.pos]
         else:
-            b = True
-            self.prefix.append(True)
-            if pf < 1:
+            b = pf > 0
+            self.prefix.append(b)
+            if 0 < pf < 1:
                 self.pending.append((list(self.prefix[:-1]) + [False]))
         self.pos += 1
         self.weight *= pf if b else (1 - pf)
@@ -178,6 +365,7 @@ class Enumerator:
         while stack:
             self.prefix, self.pos, self.weight, self.pending = stack.pop(), 0, Fraction(1), []
             out = runner()
+            self.runs += 1
             if self.weight > 0:
                 res.append((out, self.weight))
             stack.extend(self.pending)
@@ -202,13 +390,13 @@ def kernel_from(cuqi, impl, spec, eps, max_depth, x, r, e):
         if impl == "exp":
             from cuqi.experimental.mcmc import NUTS
             s = NUTS(T, initial_point=np.array(x, dtype=float), max_depth=max_depth, step_size=eps)
-            s._ensure_initialized(); s._pre_sample()
             with ScriptedRandom(script=script):
-                s.step()
+                s.sample(1)
             return tuple(float(v) for v in s.current_point)
         else:
             s = cuqi.sampler.NUTS(T, x0=np.array(x, dtype=float), max_depth=max_depth, adapt_step_size=eps)
-            with ScriptedRandom(script=script):
+            import io, contextlib
+            with ScriptedRandom(script=script), contextlib.redirect_stdout(io.StringIO()):
                 theta, _, _ = s._sample(2, 0)
             return tuple(float(v) for v in theta[:, 1])
     law = {}
@@ -219,9 +407,7 @@ def kernel_from(cuqi, impl, spec, eps, max_depth, x, r, e):
 
 def orbit(spec, eps, x, r, lo, hi):
     """orbit states i = lo..hi of the leapfrog map (float arithmetic as in the code)"""
-    import cuqi
-    T = mk_target(cuqi, spec)
-    g = lambda y: np.asarray(T.gradient(y), dtype=float)
+    f, g = target_funcs(spec)
     st = {0: (np.array(x, dtype=float), np.array(r, dtype=float))}
     for sign, rng_ in ((1, range(1, hi + 1)), (-1, range(-1, lo - 1, -1))):
         for i in rng_:
@@ -231,52 +417,51 @@ def orbit(spec, eps, x, r, lo, hi):
             x1 = xp + h * r1
             r2 = r1 + 0.5 * h * g(x1)
             st[i] = (x1, r2)
-    return st, T
+    return st, f
 
 
-def orbit_balance(cuqi, impl, spec, eps, max_depth, x, r, e, tol=1e-9):
-    """Detailed balance of the real kernel on the orbit through (x, r) w.r.t. the counting measure on the slice:
-    returns None if it holds, else a description.  Skips (returns None) when a decision margin is tiny."""
+def orbit_stationary(cuqi, impl, spec, eps, max_depth, x, r, e):
+    """Stationarity of the counting measure on the in-slice points of the orbit through (x, r) under the REAL kernel:
+    sum over in-slice, finite-density sources i of P(i -> 0) must be 1 (exact rational weights).
+    Returns None if it holds (or a decision margin is tiny / the step size 1.0 is not honoured by the legacy sampler),
+    else a description."""
+    if impl == "leg" and eps == 1:
+        return None        # adapt_step_size=1.0 == True: the legacy sampler picks its own step size (reported separately)
     span = 2 ** (max_depth + 1) - 1
-    st, T = orbit(spec, eps, x, r, -span, span)
-    H = {i: float(T.logd(s[0])) - 0.5 * float(np.dot(s[1], s[1])) for i, s in st.items()}
+    st, f = orbit(spec, eps, x, r, -2 * span - 1, 2 * span + 1)
+    with np.errstate(all="ignore"):
+        L = {i: float(f(s[0])) for i, s in st.items()}
+        H = {i: L[i] - 0.5 * float(np.dot(s[1], s[1])) for i, s in st.items()}
     logu = H[0] - e
-    if any(abs(logu - h) < 1e-7 for h in H.values() if np.isfinite(h)):
+    if not np.isfinite(logu):
         return None
-    P0 = kernel_from(cuqi, impl, spec, eps, max_depth, st[0][0], st[0][1], e)
-
-    def index_of(pt, around):
-        best = None
-        for i in range(around - span, around + span + 1):
-            if i in st_all and np.allclose(st_all[i][0], pt, rtol=1e-9, atol=1e-9):
-                best = i
-                break
-        return best
-    st_all, _ = orbit(spec, eps, x, r, -2 * span - 1, 2 * span + 1)
-    Hall = {i: float(T.logd(s[0])) - 0.5 * float(np.dot(s[1], s[1])) for i, s in st_all.items()}
-    if any(abs(logu - h) < 1e-7 for h in Hall.values() if np.isfinite(h)):
+    if any(abs(logu - h) < 1e-7 * (1 + abs(logu)) or abs(logu - 1000 - h) < 1e-7 * (1 + abs(logu)) for h in H.values() if np.isfinite(h)):
         return None
-    tot = sum(P0.values())
-    if abs(float(tot) - 1) > 1e-9:
-        return "enumerated weights from index 0 sum to %s" % float(tot)
-    for pt, w in P0.items():
-        k = index_of(np.array(pt), 0)
-        if k is None:
-            return "selected point %s is not on the orbit" % (pt,)
-        if not (logu <= Hall[k]) or not np.isfinite(float(T.logd(np.array(pt)))):
-            if w > Fraction(1, 10**9):
-                return "state %d outside the slice / non-finite selected with probability %s" % (k, float(w))
+    # distinct orbit points are needed to identify outcomes
+    for i, s in st.items():
+        if any(np.allclose(s[0], t[0], rtol=1e-9, atol=1e-12) and j != i for j, t in st.items() if abs(j - i) <= 2 * span + 1 and j < i):
+            return None
+    total = Fraction(0)
+    parts = {}
+    for i in range(-span, span + 1):
+        if not (logu <= H[i]) or not np.isfinite(L[i]):
             continue
-        if k == 0:
-            continue
-        ek = Hall[k] - logu
-        Pk = kernel_from(cuqi, impl, spec, eps, max_depth, st_all[k][0], st_all[k][1], ek)
-        back = Fraction(0)
-        for pt2, w2 in Pk.items():
-            if index_of(np.array(pt2), k) == 0:
-                back += w2
-        if abs(float(back) - float(w)) > tol:
-            return "detailed balance fails on the orbit: P(0->%d)=%s but P(%d->0)=%s" % (k, float(w), k, float(back))
+        law = kernel_from(cuqi, impl, spec, eps, max_depth, st[i][0], st[i][1], H[i] - logu)
+        if abs(float(sum(law.values())) - 1) > 1e-9:
+            return "enumerated weights from orbit position %d sum to %s" % (i, float(sum(law.values())))
+        for pt, w in law.items():
+            ks = [k for k in range(i - span, i + span + 1) if np.allclose(st[k][0], pt, rtol=1e-9, atol=1e-12)]
+            if not ks:
+                return "from orbit position %d the sampler moved to %s, which is not on the orbit" % (i, pt)
+            k = ks[0]
+            if w > 0 and (not (logu <= H[k]) or not np.isfinite(L[k])):
+                return "from orbit position %d a state outside the slice / with non-finite density (position %d) is selected with probability %s" % (i, k, float(w))
+            if k == 0:
+                total += w
+                parts[i] = parts.get(i, 0) + w
+    if abs(float(total) - 1) > 1e-9:
+        return ("the counting measure on the slice is not stationary on the orbit: sum_i P(i->0) = %s (%s), contributions %s"
+                % (float(total), total, {i: str(w) for i, w in sorted(parts.items())}))
     return None
 
 
@@ -285,136 +470,326 @@ def dy(rng, lo, hi, den):
     return rng.randint(int(lo * den), int(hi * den)) / den
 
 
-def gen_inputs(ctx, rng):
-    kind = rng.choice(["gauss", "gauss", "quartic", "box"])
-    d = rng.randint(1, 3)
-    if kind == "gauss":
-        spec = {"kind": "gauss", "prec": [rng.choice([1, 2, 4, 9, 0.25]) for _ in range(d)]}
-    elif kind == "quartic":
-        d = rng.randint(1, 2)
-        spec = {"kind": "quartic", "dim": d}
-    else:
-        spec = {"kind": "box", "prec": [rng.choice([1, 2, 4]) for _ in range(d)], "bound": rng.choice([1.5, 2.0, 3.0]),
-                "bad": rng.choice(["ninf", "nan"])}
-    eps = rng.choice([0.125, 0.25, 0.5, 0.5, 1.0, 1.0, 2.0, 4.0])
-    md = rng.choice([0, 1, 2, 2, 3, 3] + ([4] if ctx.thorough else []))
-    x0 = [dy(rng, -1.25, 1.25, 8) for _ in range(d)]
-    z = [dy(rng, -2, 2, 16) for _ in range(d)]
+EPS_CLASSES = {"tiny": [0.0625, 0.125], "mid": [0.25, 0.5, 1.0], "huge": [2.0, 4.0, 8.0]}
+TARGET_KINDS = ["gauss", "split", "quartic", "box:ninf", "box:nan", "box:pinf"]
+
+
+def gen_spec(rng, tk, d=None):
+    d = d or rng.randint(1, 3)
+    precs = [1, 2, 4, 9, 0.25]
+    if tk == "gauss":
+        return {"kind": "gauss", "prec": [rng.choice(precs) for _ in range(d)]}
+    if tk == "split":
+        return {"kind": "split", "pl": [rng.choice(precs) for _ in range(d)], "pr": [rng.choice(precs) for _ in range(d)]}
+    if tk == "quartic":
+        return {"kind": "quartic", "dim": min(d, 2)}
+    return {"kind": "box", "prec": [rng.choice([1, 2, 4]) for _ in range(d)], "bound": rng.choice([0.75, 1.5, 2.0]), "bad": tk.split(":")[1]}
+
+
+def gen_script(rng, md):
+    d = None
     e = rng.choice([dy(rng, 0, 1, 64) + 1 / 128, dy(rng, 0, 4, 64) + 1 / 128, dy(rng, 0, 12, 16) + 1 / 32])
     us = [(rng.randint(0, 127) * 2 + 1) / 256 for _ in range(2 ** (md + 2) + 8)]
-    return spec, eps, md, x0, z, e, us
+    return e, us
+
+
+def gen_start(rng, spec):
+    d = dim_of(spec)
+    b = spec.get("bound", 1.25)
+    x0 = [dy(rng, -min(b, 1.25), min(b, 1.25), 8) for _ in range(d)]
+    return x0
+
+
+def gen_z(rng, d):
+    return [dy(rng, -2, 2, 16) for _ in range(d)]
 
 
 def obs_leaf(l):
     return "(%s, %s, %s)" % (cqvec(l[0]), cqvec(l[1]), cext(l[2]))
 
 
-def mk_case(impl, spec, md, warm, o, z, e, us):
-    x0, eps = o["x0"], o["eps"]
+def case_expr(impl, spec, md, o, z, e, us, guard, exact=False):
     used = us[:o["nrand"] + 4]
-    expr = ("check_ok (check_transition %s %s %s (qc %s) %s %s %s %s %s %s %s %s %s %s %s)" % (
-        ctarget(spec), cbool(impl == "exp"), cnat(md), cq(frac(eps) / 2), cqvec(x0), cqvec(z), cq(e), cqvec(used),
+    return ("(check_transition %s %s %s %s (qc %s) %s %s %s %s %s %s %s %s %s %s %s)" % (
+        cbool(exact), ctarget(spec), cbool(guard), cnat(md), cq(frac(o["eps"]) / 2), cqvec(o["x0"]), cqvec(z), cq(e), cqvec(used),
         clist([obs_leaf(l) for l in o["leaves"]]), cqvec(o["point"]), cext(o["logd"]),
-        copt(o["grad"], cqvec), copt(o["acc"], cbool), cnat(o["nrand"]), cnat(o["nlast"])))
-    meta = {"impl": impl, "target": spec, "eps": eps, "max_depth": md, "x0": [float(v) for v in x0], "z": z, "e": e, "us": used, "warm": warm}
-    # statistic: mean Metropolis probability over the leaves of the last doubling (python check on the
-    # observed leaves, which the Coq side ties to the model leaf by leaf)
-    fail, sig = None, ""
-    if o.get("order", [])[:2] != ["standard_normal", "exponential"] or any(k != "rand" for k in o["order"][2:]):
-        fail, sig = "random numbers are drawn in an unexpected order: %s" % o["order"][:6], "NUTS.rng_order"
-    if impl == "leg" and not np.array_equal(o["first"], np.array(x0)):
-        fail, sig = "first stored state is not the initial point", "NUTS.legacy.first_state"
-    if impl == "exp" and o["nlast"] > 0:
-        H0 = float(mk_target(__import__("cuqi"), spec).logd(np.array(x0))) - 0.5 * float(np.dot(z, z))
-        hs = [ham(l) for l in o["leaves"][-o["nlast"]:]]
-        if all(np.isfinite(h) for h in hs):
-            exp_alpha = sum(min(1.0, math.exp(min(0.0, h - H0))) for h in hs) / len(hs)
-            if not abs(exp_alpha - o["alpha"]) <= 1e-12 * (1 + abs(exp_alpha)):
-                fail, sig = "acceptance statistic %r is not the mean Metropolis probability %r over the %d leaves of the last doubling" % (o["alpha"], exp_alpha, len(hs)), "NUTS.alpha_stat"
-    if not np.isfinite(o["logd"]):
-        fail, sig = "a state with non-finite log-density %r was selected" % o["logd"], "NUTS.nonfinite_selected"
-    return Case(expr=expr, meta=meta, cell="%s/%s/md%d/%s" % (impl, spec["kind"] + (":" + spec.get("bad", "") if spec["kind"] == "box" else ""), md, "warm" if warm else "fresh"),
-                trivial=(len(o["leaves"]) <= 1), kind="EXACT", impl_fail=fail, signature=sig)
+        copt(o["grad"], cqvec), copt(o["acc"], cbool), cnat(o["nrand"]), cnat(o["nlast"]))), used
+
+
+def mk_case(ctx_state, impl, spec, md, phase, o, z, e, us, chain_meta, idx, exact=False, cell_extra=""):
+    guard = True if impl == "exp" else (ctx_state["leg_guard"] if spec.get("bad") == "pinf" else False)
+    inner, used = case_expr(impl, spec, md, o, z, e, us, guard, exact)
+    meta = dict(chain_meta)
+    meta.update({"transition": idx, "guard": guard, "exact": exact})
+    fail, sig = transition_oracle(impl, spec, o, z, e)
+    epsc = [k for k, v in EPS_CLASSES.items() if chain_meta["eps"] in v]
+    cell = "%s/%s/md%d/%s/%s%s" % (impl, kind_name(spec), md, epsc[0] if epsc else "adapted", phase, cell_extra)
+    return Case(expr="check_ok " + inner, meta=meta, cell=cell, trivial=(len(o["leaves"]) <= 1), kind="EXACT",
+                impl_fail=fail, signature=sig), inner
+
+
+def crash_case(impl, spec, md, phase, chain_meta, exc):
+    return Case(expr="false", meta=dict(chain_meta), cell="%s/%s/md%d/crash/%s" % (impl, kind_name(spec), md, phase), kind="DECISION",
+                impl_fail="the sampler raised %s on a scripted transition" % exc, signature="NUTS.%s.raises" % impl)
+
+
+def detect_leg_guard(cuqi):
+    """does the legacy sampler accept a +inf log-density state? (True = it refuses, i.e. the guard is present)"""
+    w = pinf_witness(cuqi)
+    return not w[0]
+
+
+def pinf_witness(cuqi):
+    spec = {"kind": "box", "prec": [1], "bound": 0.75, "bad": "pinf"}
+    us = [0.25, 0.125] + [0.5] * 8
+    o = run_chain(cuqi, "leg", spec, 0.5, 0, [0.5], [([1.0], 0.5, us)])[0]
+    fails = bool(np.isinf(o["logd"]))
+    return fails, "cuqi.sampler.NUTS on a target with logd=+inf for |x|>0.75, x0=0.5, momentum 1, step 0.5, max_depth 0: new state %s with log-density %r" % (o["point"], o["logd"])
+
+
+def sched_case(o0, impl, spec, md, chain_meta):
+    """step-size schedule of the experimental sampler through warm-up and sampling"""
+    sc = o0["sched"]
+    evs = []
+    for ev in sc["events"]:
+        if ev[0] == "prewarm":
+            evs.append("(EvPreWarmup 1)")
+        elif ev[0] == "presample":
+            evs.append("EvPreSample")
+        elif ev[0] == "step":
+            evs.append("EvStep")
+        else:
+            evs.append("(EvTune %s %s)" % (cq(ev[1]), cq(ev[2])))
+    expr = "check_schedule %s %s %s %s %s" % (cq(sc["eps0"]), clist(evs), cqvec(sc["used"]), cq(sc["final"][0]), cq(sc["final"][1]))
+    # oracle: once sampling has started the step size no longer moves after the first sampling step
+    i0 = [i for i, ev in enumerate(sc["events"]) if ev[0] == "presample"][0]
+    n_s = sum(1 for ev in sc["events"][i0:] if ev[0] == "step")
+    used_s = sc["used"][-n_s:]
+    fail = None
+    if len(set(used_s[1:])) > 1:
+        fail = "step size still changes during sampling: %s" % used_s
+    meta = dict(chain_meta)
+    meta["schedule"] = True
+    return Case(expr=expr, meta=meta, cell="exp/schedule/warm", kind="DECISION", impl_fail=fail, signature="NUTS.exp.step_size_moves" if fail else "")
+
+
+def gen_chain(ctx, rng, cuqi, state, impl, tk, md, epsc, warm, cases, inners, n_tr=2):
+    spec = gen_spec(rng, tk)
+    d = dim_of(spec)
+    if warm and impl == "exp":
+        n_tr = 3
+    eps = rng.choice(EPS_CLASSES[epsc])
+    x0 = gen_start(rng, spec)
+    scripts = []
+    for _ in range(n_tr):
+        e, us = gen_script(rng, md)
+        scripts.append((gen_z(rng, d), e, us))
+    wseed = rng.randint(1, 10**6)
+    chain_meta = {"impl": impl, "target": spec, "eps": eps, "max_depth": md, "x0": x0, "warm": warm, "warm_seed": wseed,
+                  "scripts": [[z, e, us[:40]] for (z, e, us) in scripts]}
+    try:
+        obs = run_chain(cuqi, impl, spec, eps, md, x0, scripts, warm=warm, warm_seed=wseed)
+    except OutOfUniforms:
+        cases.append(crash_case(impl, spec, md, "warm" if warm else "fresh", chain_meta, "consumed more uniforms than any NUTS transition of this depth can"))
+        return
+    except Exception as ex:
+        cases.append(crash_case(impl, spec, md, "warm" if warm else "fresh", chain_meta, repr(ex)))
+        return
+    for j, (o, (z, e, us)) in enumerate(zip(obs, scripts)):
+        phase = ("warm" if warm else "fresh") if j == 0 else ("warm+1" if warm else "second")
+        c, inner = mk_case(state, impl, spec, md, phase, o, z, e, us, chain_meta, j)
+        cases.append(c)
+        inners.append(inner)
+        if impl == "leg" and not warm and j == 0 and o["eps"] != eps:
+            state["leg_eps_replaced"] += 1
+    if impl == "exp" and warm and "sched" in obs[0]:
+        cases.append(sched_case(obs[0], impl, spec, md, chain_meta))
+
+
+def tie_cases(ctx, rng, cuqi, state, cases):
+    """boundary cell: the slice variable equals the Hamiltonian of a leaf exactly (log u <= H' must count it) and the
+    swap / acceptance uniform equals its threshold exactly (u <= p must accept).  Only cases whose float arithmetic
+    was verified exact are used; the margins of the model are waived for them."""
+    made = 0
+    tries = 0
+    while made < ctx.n(16, 120) and tries < 4000:
+        tries += 1
+        impl = ["exp", "leg"][tries % 2]
+        md = rng.choice([0, 1, 1, 2])
+        spec = {"kind": "gauss", "prec": [rng.choice([1, 2, 4])]}
+        eps = rng.choice([0.25, 0.5])
+        x0 = [dy(rng, -1.25, 1.25, 8)]
+        z = [dy(rng, -2, 2, 16)]
+        # exact orbit in rationals, pick the leaf whose H the slice variable will equal
+        f, g = target_funcs(spec)
+        st, _ = orbit(spec, eps, x0, z, -4, 4)
+        H = {i: float(f(s[0])) - 0.5 * float(np.dot(s[1], s[1])) for i, s in st.items()}
+        cand = [i for i in (-2, -1, 1, 2) if 0 < H[0] - H[i] < 8]
+        kind = rng.choice(["slice", "uniform"])
+        if kind == "slice":
+            if not cand:
+                continue
+            e = H[0] - H[rng.choice(cand)]
+            us = [(rng.randint(0, 127) * 2 + 1) / 256 for _ in range(24)]
+        else:
+            e = dy(rng, 0, 1, 64) + 1 / 128
+            us = [rng.choice([0.25, 0.75, 0.5, 0.5]) for _ in range(24)]
+        chain_meta = {"impl": impl, "target": spec, "eps": eps, "max_depth": md, "x0": x0, "warm": 0, "warm_seed": 1,
+                      "scripts": [[z, e, us]]}
+        try:
+            o = run_chain(cuqi, impl, spec, eps, md, x0, [(z, e, us)])[0]
+        except Exception as ex:
+            cases.append(crash_case(impl, spec, md, "tie", chain_meta, repr(ex)))
+            continue
+        if o["eps"] != eps or not exact_leaves(spec, eps, x0, z, o["leaves"]):
+            continue
+        c, _ = mk_case(state, impl, spec, md, "tie-" + kind, o, z, e, us, chain_meta, 0, exact=True)
+        cases.append(c)
+        made += 1
 
 
 def run(ctx):
     import cuqi
     rng = ctx.rng
-    cases = []
-    n = ctx.n(170, 1500)
-    for it in range(n):
-        spec, eps, md, x0, z, e, us = gen_inputs(ctx, rng)
-        for impl in ("exp", "leg"):
-            warm = 0
-            if impl == "exp" and it % 7 == 3 and spec["kind"] != "box":
-                warm = rng.choice([5, 12])
-            try:
-                o = one_transition(cuqi, impl, spec, eps, md, x0, z, e, us, warm=warm)
-            except StopIteration:
-                continue
-            cases.append(mk_case(impl, spec, md, warm, o, z, e, us))
+    cases, inners = [], []
+    state = {"leg_guard": detect_leg_guard(cuqi), "leg_eps_replaced": 0}
+    mds = [0, 1, 2, 3] + ([4] if ctx.thorough else [])
+    reps = ctx.n(1, 6)
+    for impl in ("exp", "leg"):
+        for tk in TARGET_KINDS:
+            for md in mds:
+                if tk == "quartic" and md > (2 if ctx.thorough else 1):
+                    continue       # exact rationals of a cubic map grow as 3^leaves: deeper trees are covered by the two-piece normal
+                for epsc in EPS_CLASSES:
+                    for _ in range(reps if tk != "quartic" or md < 2 else 1):
+                        gen_chain(ctx, rng, cuqi, state, impl, tk, md, epsc, 0, cases, inners)
+    # after warm-up (adapted, non-dyadic step size and start)
+    for impl in ("exp", "leg"):
+        for tk in ("gauss", "split"):
+            for md in (1, 2, 3):
+                for _ in range(ctx.n(2, 10)):
+                    gen_chain(ctx, rng, cuqi, state, impl, tk, md, "mid", rng.choice([3, 5, 10, 12]), cases, inners)
+    tie_cases(ctx, rng, cuqi, state, cases)
+    # how many of the scripted transitions were decided with all margins (sample)
+    sample = rng.sample(inners, min(len(inners), 60))
+    cases.append(Case(expr="(%d <=? length (filter check_conclusive %s))%%nat" % (int(0.8 * len(sample)), clist(sample)),
+                      meta={"conclusive_sample": len(sample)}, cell="meta/conclusive>=80%", kind="DECISION"))
     # exact kernel enumeration of the real samplers on a few orbits (independent oracle)
-    nb = ctx.n(10, 80)
     checked = 0
-    for it in range(nb):
-        spec, eps, md, x0, z, e, us = gen_inputs(ctx, rng)
-        md = min(md, 2)
-        if dim_of(spec) > 2:
-            continue
+    for it in range(ctx.n(10, 60)):
+        tk = TARGET_KINDS[it % len(TARGET_KINDS)]
+        md = [0, 1, 1][it % 3] if not ctx.thorough else [0, 1, 1, 2][it % 4]
+        spec = gen_spec(rng, tk, d=rng.randint(1, 2))
+        if tk == "quartic":
+            md = min(md, 1)
+        eps = rng.choice([0.25, 0.5, 2.0, 0.125, 4.0])
+        x0, z = gen_start(rng, spec), gen_z(rng, dim_of(spec))
+        e, _ = gen_script(rng, md)
         for impl in ("exp", "leg"):
-            d = orbit_balance(cuqi, impl, spec, eps, md, x0, z, e)
+            meta = {"impl": impl, "target": spec, "eps": eps, "max_depth": md, "x0": x0, "z": z, "e": e, "orbit": True}
+            if impl == "leg" and tk == "box:pinf" and not state["leg_guard"]:
+                continue        # known finding: covered by its own witness and the scripted cells
+            try:
+                d = orbit_stationary(cuqi, impl, spec, eps, md, x0, z, e)
+            except Exception as ex:
+                d = "kernel enumeration crashed: %r" % ex
             checked += 1
-            meta = {"impl": impl, "target": spec, "eps": eps, "max_depth": md, "x0": x0, "z": z, "e": e, "orbit_balance": True}
-            cases.append(Case(expr="true", meta=meta, cell="%s/orbit-balance/md%d" % (impl, md), kind="DECISION", impl_fail=d,
-                              signature="NUTS.%s.orbit_balance" % impl if d else ""))
-    return Result(cases=cases, rule=RULE, extra={"orbit_balance_checks": checked},
-                  assumptions=["targets are user-defined polynomial log-densities (Gaussian with diagonal precision, quartic, box-truncated with NaN/-inf outside)",
-                               "floating-point rounding of the implementation is not modelled: leaves are compared within 1e-9 and a case whose decisions are closer than 1e-7 to a tie is inconclusive",
-                               "numpy.random is replaced by a scripted stream (momentum, exponential, uniforms)"])
+            cases.append(Case(expr="true", meta=meta, cell="%s/orbit-stationarity/md%d" % (impl, md), kind="DECISION", impl_fail=d,
+                              signature="NUTS.%s.orbit_stationarity" % impl if d else ""))
+    return Result(cases=cases, rule=RULE,
+                  extra={"orbit_stationarity_checks": checked, "legacy_step_size_1.0_replaced_by_FindGoodEpsilon": state["leg_eps_replaced"],
+                         "legacy_refuses_+inf": state["leg_guard"]},
+                  assumptions=["targets are user-defined polynomial log-densities (Gaussian with diagonal precision, two-piece normal, quartic, box-truncated with NaN/-inf/+inf outside)",
+                               "floating-point rounding of the implementation is not modelled: leaves are compared within 1e-9 and a case with a decision closer than 1e-7 (relative) to a tie is inconclusive (the share of conclusive cases is itself checked on a sample); exact-arithmetic tie cases are checked without margins",
+                               "numpy.random is replaced by a scripted stream (momentum, exponential, uniforms)",
+                               "the Metropolis probabilities entering the acceptance statistic are transcendental: the statistic is checked in floating point against the observed leaves (1e-12), the model ties which leaves enter it"])
+
+
+_ORACLE_BUDGET = {"calls": 0, "confirmed": 0}
 
 
 def oracle(ctx, meta):
+    """a model/implementation disagreement on a scripted transition: look for a failure of the property itself at the same
+    inputs (per-transition clauses, then stationarity on the orbit through the start of that transition)"""
     import cuqi
-    if meta.get("max_depth", 9) > 2 or dim_of(meta["target"]) > 2 or meta.get("warm"):
-        md = min(meta.get("max_depth", 2), 2)
-    else:
-        md = meta["max_depth"]
-    return orbit_balance(cuqi, meta["impl"], meta["target"], meta["eps"], md, meta["x0"], meta["z"], meta["e"])
+    if "scripts" not in meta:
+        return None
+    _ORACLE_BUDGET["calls"] += 1
+    if _ORACLE_BUDGET["confirmed"] >= 2 or _ORACLE_BUDGET["calls"] > 25:
+        return None
+    spec = meta["target"]
+    md = min(meta["max_depth"], 2)
+    if meta.get("warm"):
+        return None
+    z, e, us = meta["scripts"][0]
+    if dim_of(spec) > 2 or (spec["kind"] == "quartic" and md > 1):
+        return None
+    d = orbit_stationary(cuqi, meta["impl"], spec, meta["eps"], md, meta["x0"], z, e)
+    if d:
+        _ORACLE_BUDGET["confirmed"] += 1
+    return d
 
 
 def search(ctx):
     import cuqi
     rng = random.Random(ctx.seed + 77)
     out = []
-    for it in range(ctx.n(60, 300)):
-        spec, eps, md, x0, z, e, us = gen_inputs(ctx, rng)
-        md = min(md, 2)
-        if dim_of(spec) > 2:
-            continue
+    for it in range(ctx.n(150, 500)):
+        tk = TARGET_KINDS[it % len(TARGET_KINDS)]
+        md = [1, 0, 1, 2, 1, 1, 2][it % 7]
+        spec = gen_spec(rng, tk, d=1)
+        if tk == "quartic":
+            md = min(md, 1)
+        eps = rng.choice([0.25, 0.5, 2.0, 0.125])
+        x0, z = gen_start(rng, spec), gen_z(rng, 1)
+        e, _ = gen_script(rng, md)
         for impl in ("exp", "leg"):
-            d = orbit_balance(cuqi, impl, spec, eps, md, x0, z, e)
+            if impl == "leg" and tk == "box:pinf":
+                continue
+            d = orbit_stationary(cuqi, impl, spec, eps, md, x0, z, e)
             if d:
-                out.append(Case(expr="true", meta={"impl": impl, "target": spec, "eps": eps, "max_depth": md, "x0": x0, "z": z, "e": e, "orbit_balance": True},
-                                impl_fail=d, signature="NUTS.%s.orbit_balance" % impl))
+                out.append(Case(expr="true", meta={"impl": impl, "target": spec, "eps": eps, "max_depth": md, "x0": x0, "z": z, "e": e, "orbit": True},
+                                impl_fail=d, signature="NUTS.%s.orbit_stationarity" % impl))
                 return out
     return out
 
 
+def known_witnesses(ctx):
+    import cuqi
+    fails, detail = pinf_witness(cuqi)
+    return {SIG_PINF: (fails, detail)}
+
+
 def classify(meta, detail):
-    return "NUTS.%s.orbit_balance" % meta.get("impl", "?")
+    return "NUTS.%s.orbit_stationarity" % meta.get("impl", "?")
 
 
 def replay(ctx, meta):
     import cuqi
     m = meta.get("meta", meta)
-    print(json.dumps(m, indent=1))
-    if m.get("orbit_balance"):
-        print("orbit balance on the real sampler:", orbit_balance(cuqi, m["impl"], m["target"], m["eps"], m["max_depth"], m["x0"], m["z"], m["e"]))
+    print(json.dumps({k: v for k, v in meta.items() if k != "meta"}, indent=1)[:3000])
+    print(json.dumps(m, indent=1)[:3000])
+    if m.get("witness") == SIG_PINF or meta.get("signature") == SIG_PINF and "scripts" not in m:
+        print("witness:", pinf_witness(cuqi))
         return 0
-    o = one_transition(cuqi, m["impl"], m["target"], m["eps"], m["max_depth"], m["x0"], m["z"], m["e"], m["us"], warm=m.get("warm", 0))
-    print("implementation: %d leaves, nrand=%d, next point=%s logd=%r acc=%r" % (len(o["leaves"]), o["nrand"], o["point"], o["logd"], o["acc"]))
-    c = mk_case(m["impl"], m["target"], m["max_depth"], m.get("warm", 0), o, m["z"], m["e"], m["us"])
-    rc, out = eval_in_coq(IMPORTS, c.expr.replace("check_ok (", "(", 1))
+    if m.get("orbit"):
+        print("stationarity of the counting measure on the orbit under the real sampler:",
+              orbit_stationary(cuqi, m["impl"], m["target"], m["eps"], m["max_depth"], m["x0"], m["z"], m["e"]) or "holds")
+        return 0
+    if "scripts" not in m:
+        return 0
+    scripts = [(z, e, us) for (z, e, us) in m["scripts"]]
+    obs = run_chain(cuqi, m["impl"], m["target"], m["eps"], m["max_depth"], m["x0"], scripts, warm=m.get("warm", 0), warm_seed=m.get("warm_seed", 1))
+    j = m.get("transition", 0)
+    o = obs[j]
+    z, e, us = scripts[j]
+    print("implementation, transition %d: start %s step size %r: %d leaves, %d uniforms, new state %s logd=%r acc=%r, leaves of last doubling %d"
+          % (j, o["x0"], o["eps"], len(o["leaves"]), o["nrand"], o["point"], o["logd"], o["acc"], o["nlast"]))
+    print("per-transition oracle:", transition_oracle(m["impl"], m["target"], o, z, e)[0] or "ok")
+    inner, _ = case_expr(m["impl"], m["target"], m["max_depth"], o, z, e, us, m.get("guard", m["impl"] == "exp"), m.get("exact", False))
+    rc, out = eval_in_coq(IMPORTS, inner)
     print("model verdict (0 agree, 1 inconclusive, 2 disagree):", out)
-    print("orbit balance on the real sampler:", oracle(ctx, m))
+    if not m.get("warm") and dim_of(m["target"]) <= 2:
+        print("stationarity on the orbit through the start (real sampler, max_depth<=2):",
+              orbit_stationary(cuqi, m["impl"], m["target"], m["eps"], min(m["max_depth"], 2), m["x0"], scripts[0][0], scripts[0][1]) or "holds")
     return 0
